@@ -33,8 +33,8 @@ BEHS = ["falsy", "truthy", "raise", "raise_if_exc"]
 BEHS_EXTRA = BEHS + ["raise_base", "raise_base_if_exc"]
 FALSY = [None, False, 0, ""]
 TRUTHY = [True, 1, "y"]
-N_HIST = {"quick": 6000, "thorough": 200000}
-N_STACK4 = {"quick": 3000, "thorough": 320000}
+N_HIST = {"quick": 30000, "thorough": 1000000}
+N_STACK4 = {"quick": 20000, "thorough": 2000000}
 
 
 class E(Exception):
